@@ -117,6 +117,16 @@ def cases(tier, seed):
                     out.append(("doc", slines + [pl], vlevel))
                     out.append(("doc", [pl] + slines, vlevel))
                     out.append(("line", pl, vlevel, "gfa1"))
+    # E lines over a grid of position pairs ($ on the begin, on the end, on both, equal positions, beyond the segment)
+    posv = ["0", "3", "8", "9", "0$", "3$", "8$", "9$"]
+    for b in posv:
+        for e in posv:
+            for which in (1, 2):
+                p1, p2 = ((b, e), ("0", "2")) if which == 1 else (("6", "8$"), (b, e))
+                el = "E\te1\tA+\tB-\t%s\t%s\t%s\t%s\t*" % (p1[0], p1[1], p2[0], p2[1])
+                for vlevel in (0, 1, 3):
+                    out.append(("doc", ["S\tA\t8\t*", "S\tB\t8\t*", el], vlevel))
+                    out.append(("doc", [el, "S\tA\t8\t*", "S\tB\t8\t*"], vlevel))
     nmut = 10 if tier == "quick" else 30
     for version in ("gfa1", "gfa2"):
         cat = universe.CAT[version]
